@@ -4,6 +4,10 @@
 From Ucfg Require Import Base ParseInt Consts Field Tree PathOps Merge OTree F64 ParseValue VarParse
      Normalize Flags Ops VarEval.
 
+(* with no absorbed cyclic error behind it an error is the plain error *)
+Lemma mkerr_unmarked {A} a e p : act_marked a = false -> @mkerr A a e p = Err e p.
+Proof. intro H. unfold mkerr. rewrite H. reflexivity. Qed.
+
 (** * Resolvers: the most recently added one that knows the name wins *)
 Lemma ask_resolvers_app rs1 rs2 n :
   ask_resolvers (rs1 ++ rs2) n =
@@ -68,10 +72,10 @@ Section Generic.
   (* no resolver knows the name: the read fails with the cyclic-reference error *)
   Lemma reentered_reference_fails root a p sep :
     act_has (path_str p sep) a = true -> resolve_env o (path_str p sep) = None ->
-    ref_eval o dv fuel0 root a p sep = Err ECyclic "".
+    ref_eval o dv fuel0 root a p sep = mkerr a ECyclic "".
   Proof.
     intros H Hr. unfold ref_eval, ref_resolve. rewrite (resolve_ref_reentered_is_cyclic root a p sep H).
-    rewrite Hr. reflexivity.
+    rewrite Hr. unfold mkerr. reflexivity.
   Qed.
 
   (* ... which a resolver that knows the name absorbs *)
@@ -88,16 +92,16 @@ Section Generic.
   Lemma unresolved_reference_is_error root a p sep a' :
     resolve_ref o dv fuel0 root a p sep = (RMissing, a') \/ resolve_ref o dv fuel0 root a p sep = (RNone, a') ->
     resolve_env o (path_str p sep) = None ->
-    ref_eval o dv fuel0 root a p sep = Err EMissing "!raw".
+    ref_eval o dv fuel0 root a p sep = mkerr a' EMissing "!raw".
   Proof.
-    intros [H|H] Hr; unfold ref_eval, ref_resolve; rewrite H, Hr; reflexivity.
+    intros [H|H] Hr; unfold ref_eval, ref_resolve; rewrite H, Hr; unfold mkerr; reflexivity.
   Qed.
 
   (* a resolver answering with the empty string resolves nothing: still an error *)
   Lemma empty_resolver_value_is_error root a p sep a' pc :
     resolve_ref o dv fuel0 root a p sep = (RMissing, a') ->
     resolve_env o (path_str p sep) = Some ("", pc) ->
-    ref_eval o dv fuel0 root a p sep = Err EOther "!raw".
+    ref_eval o dv fuel0 root a p sep = mkerr a' EOther "!raw".
   Proof.
     intros H Hr. unfold ref_eval, ref_resolve. rewrite H, Hr. reflexivity.
   Qed.
@@ -131,7 +135,7 @@ Section Generic.
                  (parse_path path sep (p_maxIdx (eo_p o)) (p_numKeys (eo_p o)) (p_escape (eo_p o))) sep)
       = Err e pth ->
     eval_exp o dv fuel0 (EDefault l r sep) root a
-    = scoped (absorbed e a1) (eval_exp o dv fuel0 r root (act_push (absorbed e a1))).
+    = scoped (absorbed e pth a1) (eval_exp o dv fuel0 r root (act_push (absorbed e pth a1))).
   Proof.
     intros H Hp He. cbn [eval_exp]. rewrite H.
     destruct (String.eqb path "") eqn:E; [apply String.eqb_eq in E; contradiction|].
@@ -157,8 +161,8 @@ Section Generic.
     scoped a1 (ref_eval o dv fuel0 root (act_push a1)
                  (parse_path path sep (p_maxIdx (eo_p o)) (p_numKeys (eo_p o)) (p_escape (eo_p o))) sep)
       = Err e pth ->
-    scoped a1 (eval_exp o dv fuel0 r root (act_push a1)) = Ok (m, a3) ->
-    eval_exp o dv fuel0 (EErr l r sep) root a = Err EOther "!raw".
+    scoped (absorbed e pth a1) (eval_exp o dv fuel0 r root (act_push (absorbed e pth a1))) = Ok (m, a3) ->
+    eval_exp o dv fuel0 (EErr l r sep) root a = mkerr a3 EOther "!raw".
   Proof.
     intros H Hp He Hm. cbn [eval_exp]. rewrite H.
     destruct (String.eqb path "") eqn:E; [apply String.eqb_eq in E; contradiction|].
@@ -171,7 +175,7 @@ Section Generic.
     scoped a1 (ref_resolve o dv fuel0 root (act_push a1)
                  (parse_path path sep (p_maxIdx (eo_p o)) (p_numKeys (eo_p o)) (p_escape (eo_p o))) sep)
       = Err e pth ->
-    eval_exp o dv fuel0 (EAlt l r sep) root a = Ok ("", absorbed e a1).
+    eval_exp o dv fuel0 (EAlt l r sep) root a = Ok ("", absorbed e pth a1).
   Proof.
     intros H Hp He. cbn [eval_exp]. rewrite H.
     destruct (String.eqb path "") eqn:E; [apply String.eqb_eq in E; contradiction|].
